@@ -106,7 +106,7 @@ def c31(prop, tier, replay):
 
 def c32(prop, tier, replay):
     ks = [1, 2, 3] if tier == "quick" else [0, 1, 2, 3, 5, 9, 10]
-    maxops = 4 if tier == "quick" else 5
+    maxops = 4
     gens = [{"module": "KTuple", "constants": {"K": k, "Terms": {0, 1, 2}, "MaxOps": maxops, "NRegs": 2 if tier == "quick" else 3},
              "invariants": ["Emit", "Laws"], "spec": "Spec", "no_shard_consts": True} for k in ks]
     return simple_check(
@@ -450,7 +450,7 @@ def c19(prop, tier, replay):
         f"every well-formed grammar of the universe is built as LL(k) and as LALR(1) parser (when parol accepts it); each parser runs on {n} "
         "seeded random inputs - token soups of up to 40 pieces over the grammar's terminals, a foreign token, comments (also unterminated), "
         "newlines, a multi-byte character, and random code-point strings - with recovery enabled and disabled, each run in its own thread with "
-        "a 10 s deadline under catch_unwind; LR runs carry a depth limit of 20000 so that a runaway table ends as a reported non-termination. "
+        "a 10 s deadline under catch_unwind; LR runs carry a depth limit of 20000 and every run a limit of 5000 semantic actions (a table with resolved conflicts can reduce a unit production for ever without growing its stack) so that a runaway table ends as a reported non-termination. "
         "Violations: panic, no result, runaway, more than 100 error entries or two entries at one location. The bounded-work discipline of "
         "recovery on all short inputs is also checked step by step by LLParser.tla in C01/C02. non-trivial: parser built",
         level="exploration", pv_env={"PV_C19_INPUTS": n}, exhaustive=False, nontrivial_tags=["LL_accepted", "LR_accepted"])
